@@ -24,7 +24,9 @@ STRINGS = ["''", '""', "'a'", '"b"', "'it\\'s'", '"q\\"q"', "'\\n\\t\\\\'", '"\\
            "'\\\nnext'", '"caf\xc3\xa9 \xe2\x9c\x93"', "'--not a comment'", '"[[not long]]"', "'`'", "[[]]", "[=[]]]=]",
            "'\\a\\b\\f\\v\\r'", '"\\u{1F600}"', "'\\255\\0'",
            # tokens that span lines: `\z` + line break, two continuation lines, long string of level 2
-           '"skip\\z\n    over"', "'one\\\ntwo\\\nthree'", "[==[\n\n]==]"]
+           '"skip\\z\n    over"', "'one\\\ntwo\\\nthree'", "[==[\n\n]==]",
+           # empty values in every string form, and non-empty text with an empty value
+           "[==[]==]", "[=[\n]=]", '"\\z  "', "'\\z\n   '"]
 BINOPS = ["+", "-", "*", "/", "//", "%", "^", "..", "==", "~=", "<", "<=", ">", ">=", "and", "or"]
 UNOPS = ["-", "not", "#"]
 COMPOUND = ["+=", "-=", "*=", "/=", "//=", "%=", "^=", "..="]
@@ -208,7 +210,10 @@ class Gen:
         self.features.add("istring")
         k = self.rng.randrange(3)
         # literal segments, some spanning lines through backslash-newline or `\z` + newline
-        chunks = ["", "text", "a\\{b", "\\`", "x y", "-- no", "\\n", "first\\\nsecond", "skip\\z\n   over", "\\\n"]
+        chunks = ["", "text", "a\\{b", "\\`", "x y", "-- no", "\\n", "first\\\nsecond", "skip\\z\n   over", "\\\n",
+                  # literal parts whose text is not empty but whose decoded value is: `\z` + white space only
+                  # (a bare `\z` directly in front of the closing back-tick or a hole is rejected by the parser)
+                  "\\z   ", "\\z\n    ", "\\z "]
         if k == 0:
             self.t("`" + self.rng.choice(chunks) + "`", "istr")
             return
@@ -734,6 +739,11 @@ FIXED_SOURCES = [
     "local t = {1, 2; 3,}\nlocal u = {a = 1; b = 2, [3] = 4;}\n",
     "f'x' g\"y\" h[[z]] k{1} m:n'x' m:n{2}\n",
     "local s = `a{1}b{ ({x = 1}).x }c`\nlocal e = ``\n",
+    # literal parts made only of `\z` + white space (empty value, non-empty text), at the start / between holes / at the end
+    "return `{a}\\z   {b}`\n",
+    "local s = `{a}\\z\n    {b}`\nreturn s\n",
+    "local t = `\\z  {a}\\z\n\t{b}\\z\n   `\nreturn t, `\\z `, `\\z\n`\n",
+    "return '', \"\", [[]], [==[]==], ``, '\\z ', \"\\z\n  \", `{''}`, `{``}`\n",
     # interpolated strings whose literal segment spans lines
     "return `first line\\\nsecond line`\n",
     "local a = `first\\\nsecond{1}third\\\nfourth{2}fifth\\z\n   sixth`\nreturn a\n",
